@@ -112,7 +112,7 @@ Print Assumptions C04_oracle_is_the_model.
 Theorem C04_source_facts :
   forallb snd gen_relay_verbatim = true /\ length gen_relay_verbatim = 3%nat /\
   forallb snd gen_exit_checks_closed = true /\ length gen_exit_checks_closed = 4%nat /\
-  forallb snd gen_ingress_seals_with_key = true /\ length gen_ingress_seals_with_key = 2%nat /\
+  forallb snd gen_ingress_seals_with_key = true /\ length gen_ingress_seals_with_key = 3%nat /\
   forallb snd gen_stream_senders_need_key = true /\ length gen_stream_senders_need_key = 6%nat.
 Proof. repeat split; reflexivity. Qed.
 Print Assumptions C04_source_facts.
